@@ -66,6 +66,12 @@ func fieldCallKey(v ssa.Value) string {
 }
 
 func (x *Exec) logCall(st *State, key string, args []Val, ts []types.Type) {
+	x.logCallOpt(st, key, args, ts, false)
+}
+
+// logCallOpt: with shallow, closures are logged by their function id only (the
+// callee model runs them inline; they do not escape into the heap).
+func (x *Exec) logCallOpt(st *State, key string, args []Val, ts []types.Type, shallow bool) {
 	if !x.eng.logKeys[key] {
 		return
 	}
@@ -80,6 +86,12 @@ func (x *Exec) logCall(st *State, key string, args []Val, ts []types.Type) {
 		switch v := a.(type) {
 		case *StructVal:
 			term = st.box(v)
+		case *CloVal:
+			if shallow {
+				term = x.funcID(v.Fn)
+			} else {
+				term = st.scalar(a, t)
+			}
 		default:
 			term = st.scalar(a, t)
 		}
@@ -91,6 +103,12 @@ func (x *Exec) logCall(st *State, key string, args []Val, ts []types.Type) {
 		darr := st.comp(dname, ArrSort(SI, term.Sort))
 		st.setComp(dname, Sto(darr, dn, term))
 	}
+	// global order of logged calls
+	tnow := st.comp("T!", SI)
+	tsName := "TS!" + sanitize(key)
+	tsArr := st.comp(tsName, ArrSort(SI, SI))
+	st.setComp(tsName, Sto(tsArr, n, tnow))
+	st.setComp("T!", Add(tnow, TInt(1)))
 	// index of the latest call by argument value, for the arguments a contract asks for (lastcall)
 	if sig := x.eng.callSigs[key]; sig != nil {
 		for j, name := range sig.names {
@@ -144,6 +162,14 @@ func (x *Exec) call(st *State, site ssa.Value, cc *ssa.CallCommon, fnVal Val, ar
 	}
 	{
 		key := x.calleeKey(st, fr, cc)
+		if top := st.frames[0]; top == fr && top.contract != nil && top.contract.Relies[key] != nil && !x.lemmaMode {
+			rs := top.contract.Relies[key]
+			k1 := k
+			k = func(st2 *State, res Val) {
+				x.applyRely(st2, rs)
+				k1(st2, res)
+			}
+		}
 		if x.eng.logKeys[key] {
 			k0 := k
 			k = func(st2 *State, res Val) {
@@ -208,13 +234,13 @@ func (x *Exec) callFunc(st *State, cc *ssa.CallCommon, fn *ssa.Function, args []
 	key := funcKey(fn)
 	ats := callArgTypes(cc, args)
 	if h := x.eng.externs[key]; h != nil {
-		x.logCall(st, key, args, ats)
+		x.logCallOpt(st, key, args, ats, inlineExtern[key])
 		h(x, st, cc, fn, args, resT, k)
 		return
 	}
 	// method on ConcurrentSwissMap and other modelled generics
 	if h := x.eng.externByOrigin(fn); h != nil {
-		x.logCall(st, key, args, ats)
+		x.logCallOpt(st, key, args, ats, inlineExtern[key])
 		h(x, st, cc, fn, args, resT, k)
 		return
 	}
@@ -328,7 +354,24 @@ func (x *Exec) applyContract(st *State, c *Contract, fn *ssa.Function, sig *type
 		e.withHeap(pre, func() TV { cond = x.safeBool(e, cl); return TV{} })
 		st.assume(Imp(dom, Not(cond)))
 	}
+	// intermediate states named by the callee (rely ... snap L): unknown heaps
+	if len(c.Relies) > 0 {
+		e.snaps = map[string]map[string]Term{}
+		for _, rs := range c.Relies {
+			if rs.Snap == "" {
+				continue
+			}
+			h := map[string]Term{}
+			for name, t := range st.heap {
+				h[name] = x.freshNamed(name+"!"+rs.Snap, t.Sort)
+			}
+			e.snaps[rs.Snap] = h
+		}
+	}
 	for _, cl := range c.ByKind("ensures") {
+		if x.localClause(c, cl) {
+			continue
+		}
 		st.assume(Imp(dom, x.safeAssume(e, cl)))
 	}
 	for _, cl := range c.ByKind("assume") {
@@ -500,6 +543,21 @@ func (x *Exec) evalLoc(e *Env, le Expr, cl *Clause) (out []Loc) {
 					sfail("unknown ghost %s", name)
 				}
 				res = append(res, Loc{comp: "G!" + name, sort: g.Sort})
+			case "atomic":
+				// atomic(x.f): the value of a sync/atomic field
+				p := e.eval(v.Args[0])
+				pr, ok := p.V.(*PRef)
+				if !ok {
+					sfail("atomic() needs a struct field")
+				}
+				res = append(res, mk("AT!"+typeName(pr.Root)+"!"+fieldNameAt(pr.Root, pr.Path), ArrSort(SI, SI), pr.Ref))
+			case "mutex":
+				p := e.eval(v.Args[0])
+				pr, ok := p.V.(*PRef)
+				if !ok {
+					sfail("mutex() needs a struct field")
+				}
+				res = append(res, mk("MU!"+typeName(pr.Root)+"!"+fieldNameAt(pr.Root, pr.Path), ArrSort(SI, SB), pr.Ref))
 			case "newobjs":
 				// every field of objects of struct type T allocated after the old state
 				t := e.resolveType(exprKey(v.Args[0]))
@@ -622,6 +680,10 @@ func (x *Exec) havocLoc(st *State, l Loc) {
 				names[fmt.Sprintf("R!%s!%d", key, j)] = ArrSort(SI, s)
 			}
 		}
+		names["TS!"+key] = ArrSort(SI, SI)
+		tOld := st.comp("T!", SI)
+		tNew := st.havocComp("T!", SI)
+		st.assume(Ge(tNew, tOld))
 		for name, sort := range names {
 			cur := st.comp(name, sort)
 			n := st.havocComp(name, sort)
@@ -687,7 +749,7 @@ func (x *Exec) frameCheck(st *State, fr *Frame, base map[string]Term, baseWM Ter
 		if strings.HasPrefix(comp, "C!") || strings.HasPrefix(comp, "B!") {
 			// cells and closure objects: only fresh ones may be written unless declared
 		}
-		if strings.HasPrefix(comp, "A!") || strings.HasPrefix(comp, "R!") || strings.HasPrefix(comp, "D!") || strings.HasPrefix(comp, "DA!") || strings.HasPrefix(comp, "DR!") || strings.HasPrefix(comp, "L!") || strings.HasPrefix(comp, "MU!") || strings.HasPrefix(comp, "ONCE!") || strings.HasPrefix(comp, "WG!") {
+		if strings.HasPrefix(comp, "A!") || strings.HasPrefix(comp, "R!") || comp == "T!" || strings.HasPrefix(comp, "TS!") || strings.HasPrefix(comp, "D!") || strings.HasPrefix(comp, "DA!") || strings.HasPrefix(comp, "DR!") || strings.HasPrefix(comp, "L!") || strings.HasPrefix(comp, "MU!") || strings.HasPrefix(comp, "ONCE!") || strings.HasPrefix(comp, "WG!") {
 			continue // argument logs are covered by their N! counter
 		}
 		ls := byComp[comp]
@@ -719,4 +781,80 @@ func (x *Exec) frameCheck(st *State, fr *Frame, base map[string]Term, baseWM Ter
 		}
 		x.oblige(st, name, nil, goal, "frame: "+comp+" changes only where declared")
 	}
+}
+
+
+// localClause: an ensures clause that mentions the function's direct-call log
+// (possibly through a let) is not part of the contract seen by callers.
+func (x *Exec) localClause(c *Contract, cl *Clause) bool {
+	if mentionsDirect(cl.E) {
+		return true
+	}
+	// lets are macros: look through the ones the clause uses
+	used := map[string]bool{}
+	collectIdents(cl.E, used)
+	for _, l := range c.Lets {
+		if used[l.Name] && mentionsDirect(l.E) {
+			return true
+		}
+	}
+	return false
+}
+
+func collectIdents(e Expr, out map[string]bool) {
+	switch x := e.(type) {
+	case *EIdent:
+		out[x.Name] = true
+	case *EUn:
+		collectIdents(x.X, out)
+	case *EBin:
+		collectIdents(x.X, out)
+		collectIdents(x.Y, out)
+	case *ESel:
+		collectIdents(x.X, out)
+	case *EIdx:
+		collectIdents(x.X, out)
+		collectIdents(x.I, out)
+	case *EQuant:
+		collectIdents(x.Body, out)
+	case *ECall:
+		for _, a := range x.Args {
+			collectIdents(a, out)
+		}
+	}
+}
+
+
+// applyRely: while the call was in flight other goroutines may have acted on
+// the declared locations, within the declared guarantee (old = before).
+func (x *Exec) applyRely(st *State, rs *RelySpec) {
+	fr := st.frames[0]
+	e := x.envFor(st, fr, fr.contract)
+	e.locals = true
+	pre := st.snapshot()
+	e.old = pre
+	e.oldWM = st.wmNow()
+	st.bumpWM()
+	for _, l := range x.locsOf(e, rs.Modifies) {
+		x.havocLoc(st, l)
+	}
+	for _, cl := range rs.Ensures {
+		st.assume(x.safeAssume(e, cl))
+	}
+	if rs.Snap != "" {
+		if fr.snaps == nil {
+			fr.snaps = map[string]map[string]Term{}
+		}
+		fr.snaps[rs.Snap] = st.snapshot()
+	}
+	x.note(&x.trusted, "rely at the call of "+rs.Key+": other goroutines act only within the declared guarantee")
+}
+
+
+// inlineExtern: library functions whose model runs the closure argument inline
+// (the closure does not escape).
+var inlineExtern = map[string]bool{
+	"wrapper.(*ConcurrentSwissMap).Range":   true,
+	"wrapper.(*ConcurrentSwissMap).StoreIf": true,
+	"sync.(*Once).Do":                       true,
 }
